@@ -386,6 +386,48 @@ theorem c13_nonce_unique (logs : List (List Frame))
     omega
 
 
+/-- **C13 (nonce uniqueness, streams numbered by the peer).** The endpoint that ACCEPTS streams sends on ids the peer
+chose: `streams` lists (id, log of the frames sent on it), the ids pairwise distinct — the stream table creates a stream
+only for an id it has never seen and keeps closed ids as tombstones (`Gen.Datagram.recvDemuxByStreamID`, C12's
+`recvTombstoneDrops`), and a refused stream's single closing frame `(id, 0)` is such a log of length one. Two frames with
+the same `(stream id, seq)` are the same frame of the same stream; and none collides with the pair reserved for the
+session-closing notice as long as no stream is numbered `0xffffffff` (the peer's choice: an honest client numbers
+1, 2, …, `c13_nonce_unique`). -/
+theorem c13_nonce_unique_peer_ids (streams : List (Nat × List Frame))
+    (hids : (streams.map (·.1)).Nodup)
+    (hgap : ∀ p ∈ streams, p.2.map (·.seq) = List.range p.2.length) (hframes : ∀ p ∈ streams, p.2.length ≤ 2^64)
+    (k1 k2 i1 i2 : Nat) (p1 p2 : Nat × List Frame) (f1 f2 : Frame)
+    (h1 : streams[k1]? = some p1) (h2 : streams[k2]? = some p2) (g1 : p1.2[i1]? = some f1) (g2 : p2.2[i2]? = some f2) :
+    (nonce p1.1 f1 = nonce p2.1 f2 → k1 = k2 ∧ i1 = i2) ∧
+    (p1.1 ≠ Gen.Sender.sessCloseStreamID.toNat → nonce p1.1 f1 ≠ (Gen.Sender.sessCloseStreamID.toNat, Gen.Sender.sessCloseSeq.toNat)) := by
+  have m1 : p1 ∈ streams := List.mem_of_getElem? h1
+  have m2 : p2 ∈ streams := List.mem_of_getElem? h2
+  obtain ⟨s1, b1⟩ := log_get p1.2 (hgap p1 m1) i1 f1 g1
+  obtain ⟨s2, b2⟩ := log_get p2.2 (hgap p2 m2) i2 f2 g2
+  have c1 := hframes p1 m1
+  have c2 := hframes p2 m2
+  have p64 : (2:Nat)^64 = 18446744073709551616 := by decide
+  rw [p64] at c1 c2
+  constructor
+  · intro h
+    simp only [nonce, Prod.mk.injEq, p64] at h
+    obtain ⟨hid, hseq⟩ := h
+    have hk : k1 = k2 := by
+      have e1 : (streams.map (·.1))[k1]? = some p1.1 := by simp [List.getElem?_map, h1]
+      have e2 : (streams.map (·.1))[k2]? = some p2.1 := by simp [List.getElem?_map, h2]
+      rw [hid] at e1
+      exact (List.getElem?_inj (by
+        have := (List.getElem?_eq_some_iff.1 e1).1
+        exact this) hids).1 (e1.trans e2.symm)
+    refine ⟨hk, ?_⟩
+    omega
+  · intro hne h
+    simp only [nonce, Prod.mk.injEq] at h
+    exact hne h.1
+
+/-- non-vacuity of `c13_nonce_unique_peer_ids`: the accepting endpoint with streams 7 (two frames sent) and 5000 (refused: one frame) -/
+example : ([7, 5000] : List Nat).Nodup ∧ ([⟨0, false, 0, 0⟩, ⟨1, false, 1, 0⟩] : List Frame).map (·.seq) = List.range 2 := by decide
+
 /-! ### the closing notice is the last frame of the stream
 
 (C13: "a close puts a closing frame on the wire numbered after every frame of the writes that completed before it";
